@@ -166,6 +166,23 @@ def proxy_leak(e):
     if not isinstance(e, (AttributeError, TypeError)):
         return False
     msg = str(e)
+    import re as _re
+    m = _re.match(r"unsupported operand type\(s\) for (\S+): '(\w+)' and '(\w+)'", msg)
+    if m:
+        # a binary operation that the REAL types would refuse as well (float * None ...) is the program's own error
+        import decimal, operator
+        real = {'SFloat': 1.5, 'SInt': 3, 'SBool': True, 'SStr': 'a', 'SFmt': 'a', 'SOpaqueStr': 'a', 'SReal': decimal.Decimal('1.5'),
+                'NoneType': None, 'int': 3, 'float': 1.5, 'str': 'a', 'list': [1], 'tuple': (1,), 'dict': {}, 'Decimal': decimal.Decimal('1.5')}
+        ops = {'+': operator.add, '-': operator.sub, '*': operator.mul, '/': operator.truediv, '//': operator.floordiv, '%': operator.mod,
+               '**': operator.pow, '+=': operator.add, '-=': operator.sub, '*=': operator.mul, '/=': operator.truediv}
+        a, b = m.group(2), m.group(3)
+        if m.group(1).rstrip(':') in ops and a in real and b in real and (a in _PROXY_NAMES or b in _PROXY_NAMES):
+            try:
+                ops[m.group(1).rstrip(':')](real[a], real[b])
+            except TypeError:
+                return False
+            except Exception:
+                pass
     return any(("'%s'" % n) in msg or ('%s object' % n) in msg or ('not %s' % n) in msg for n in _PROXY_NAMES)
 
 
